@@ -48,6 +48,10 @@ type Config struct {
 	// runtime: releasing "the i-th" would leak that order into the execution (several per-key goroutines of one lock
 	// holder retrying through a dead connection). Off by default.
 	GroupResume bool
+	// NoPayloadHash leaves the content hash out of the c2s log lines (lengths stay). For code under test whose request
+	// bytes depend on Go map iteration order while everything else does not; the scenario then logs the requests in a
+	// canonical form itself.
+	NoPayloadHash bool
 }
 
 // Link ties the client end and the server end of one connection.
@@ -689,7 +693,11 @@ func (s *Sim) doC2S(l *Link) {
 		max = 1 + s.R.IntN(n-1)
 	}
 	b := l.C.TakeWritten(max)
-	s.logf("  c2s c%d %d bytes %x", l.ID, len(b), shortHash(b))
+	if s.Cfg.NoPayloadHash {
+		s.logf("  c2s c%d %d bytes", l.ID, len(b))
+	} else {
+		s.logf("  c2s c%d %d bytes %x", l.ID, len(b), shortHash(b))
+	}
 	s.W.Step = s.Step
 	s.W.Feed(l.S, b)
 }
